@@ -45,26 +45,42 @@ class Scratch:
 
 TIME_RE = re.compile(r"\btime\.(Now|Since|Until)\b")
 LOCK_RE = re.compile(r"^(\s*)((?:[A-Za-z_][\w\.]*)\.(?:Lock|RLock|Wait)\(\))\s*$")
+LOCK2_RE = re.compile(r"^(\s*)([A-Za-z_][\w\.]*)\.(Lock|RLock)\(\)\s*$")
+UNLOCK_RE = re.compile(r"^(\s*)(defer\s+)?([A-Za-z_][\w\.]*)\.(Unlock|RUnlock)\(\)\s*$")
 
 
 def rewrite_source(src, virtual_time=True, gates=False, fname=""):
-    """Line-preserving rewrite of a Go source file: time.Now -> verifNow, optional yield gates in
-    front of every `x.Lock()`, `x.RLock()`, `x.Wait()` statement."""
+    """Line-preserving rewrite of a Go source file: time.Now -> verifNow, and optionally
+    `verifLock(site, &x, kind); x.Lock()` in front of every `x.Lock()` / `x.RLock()` statement (a scheduling gate that also
+    tells which lock is about to be taken), `verifUnlock(&x, kind)` in front of every (deferred) `x.Unlock()` / `x.RUnlock()`
+    and `verifYield(site)` in front of every `x.Wait()`."""
     out = []
     func = "?"
     n = 0
-    uses_time_other = False
     for line in src.split("\n"):
         m = re.match(r"^func\s+(?:\([^)]*\)\s*)?(\w+)", line)
         if m:
             func = m.group(1)
+            n = 0
         if virtual_time:
             line = TIME_RE.sub(lambda mm: "verif" + mm.group(1), line)
         if gates:
-            mm = LOCK_RE.match(line)
+            mm = LOCK2_RE.match(line)
+            mu = UNLOCK_RE.match(line)
+            mw = LOCK_RE.match(line)
             if mm:
                 n += 1
-                line = '%sverifYield("%s#%d"); %s' % (mm.group(1), func, n, mm.group(2))
+                kind = "W" if mm.group(3) == "Lock" else "R"
+                line = '%sverifLock("%s#%d", &%s, "%s"); %s.%s()' % (mm.group(1), func, n, mm.group(2), kind, mm.group(2), mm.group(3))
+            elif mu:
+                kind = "W" if mu.group(4) == "Unlock" else "R"
+                if mu.group(2):
+                    line = '%sdefer func() { verifUnlock(&%s, "%s"); %s.%s() }()' % (mu.group(1), mu.group(3), kind, mu.group(3), mu.group(4))
+                else:
+                    line = '%sverifUnlock(&%s, "%s"); %s.%s()' % (mu.group(1), mu.group(3), kind, mu.group(3), mu.group(4))
+            elif mw:
+                n += 1
+                line = '%sverifYield("%s#%d"); %s' % (mw.group(1), func, n, mw.group(2))
         out.append(line)
     text = "\n".join(out)
     if virtual_time and '"time"' in text:
